@@ -362,7 +362,7 @@ def run_cases(exe, cases, concrete=None, workers=4):
     lines = make_lines(cases, concrete)
     if not lines:
         return []
-    n = max(1, (len(lines) + workers - 1) // workers)
+    n = max(1, min(400, (len(lines) + workers - 1) // workers))
     chunks = []
     for i in range(0, len(lines), n):
         need = []
@@ -375,13 +375,47 @@ def run_cases(exe, cases, concrete=None, workers=4):
 
     def work(ch):
         hdr, ls = ch
-        out = common.run_lines(exe, hdr + ls, shards=1)
-        return out[len(hdr):]
+        return run_capped(exe, hdr, ls)
     res = common.par_map(work, chunks, workers=workers)
     out = []
     for r in res:
         out.extend(r)
     return out
+
+
+MEM_KB = 3000000       # address-space cap of one driver / runner process
+BATCH_TIMEOUT = 600
+
+
+def run_once(exe, lines, timeout):
+    """one process under a memory cap and a timeout; returns the complete output lines it produced"""
+    import subprocess
+    try:
+        p = subprocess.run(["bash", "-c", "ulimit -s 100000 2>/dev/null; ulimit -v %d; exec %s" % (MEM_KB, exe)],
+                           input=("\n".join(lines) + "\n").encode(), stdout=subprocess.PIPE, stderr=subprocess.PIPE, timeout=timeout)
+        out, rc = p.stdout, p.returncode
+    except subprocess.TimeoutExpired as e:
+        out, rc = e.stdout or b"", "timeout"
+    ls = out.decode("latin-1").split("\n")
+    if ls and ls[-1] == "":
+        ls.pop()
+    elif ls:
+        ls.pop()        # incomplete last line
+    return ls, rc
+
+
+def run_capped(exe, hdr, lines, timeout=None):
+    """run a batch; if the process dies (memory cap, timeout, crash) bisect to the single case that kills it and
+    give that case the output '?crashed ...' - every other case still gets its result"""
+    timeout = timeout or BATCH_TIMEOUT
+    ls, rc = run_once(exe, hdr + lines, timeout)
+    if len(ls) == len(hdr) + len(lines):
+        return ls[len(hdr):]
+    if len(lines) == 1:
+        return ["?crashed rc=%s (memory cap %d kB, timeout %ds)" % (rc, MEM_KB, timeout)]
+    mid = len(lines) // 2
+    t2 = max(30, timeout // 2)
+    return run_capped(exe, hdr, lines[:mid], t2) + run_capped(exe, hdr, lines[mid:], t2)
 
 
 def parse_steps(line):
@@ -596,10 +630,17 @@ def check_spec(chk, case, steps, t0, plan, spec_out, stats):
             if opf[0] in ("rp", "sw") and sop != "n":
                 parent_dirty[int(opf[1])] = True
                 sloppy_page[int(opf[1])] = True
-            elif sop.startswith("i,") and (sop.endswith(",-1") or opf[0] in ("av", "mi")):
-                sloppy_page[int(opf[1])] = True
+            elif sop.startswith("i,") and opf[0] != "an":
+                # what is inserted is a page of one of the documents (then it has the page attributes) or just some dictionary
+                pre_t = [tree_info(x) for x in steps[i]["t"].split("/")]
+                if opf[0] == "av" or sop.endswith(",-1") or pre_t[int(opf[2])] is None or int(opf[3]) not in pre_t[int(opf[2])]["ids"]:
+                    sloppy_page[int(opf[1])] = True
             elif opf[0] == "uc":
                 parent_dirty[int(opf[1])] = False
+            elif opf[0] == "cf":
+                # a page copied with copyForeignObject keeps no inherited attributes; if it is added as a page later the
+                # memoised copy is used ("not going to use them as pages", QPDF.hh) and the re-read warns about it
+                sloppy_page[int(opf[1])] = True
         if sop == "stop":
             stats["spec_stopped"] += 1
             return
@@ -739,20 +780,20 @@ def build_cases(chk):
         cases.append({"fa": fa, "fb": fb, "ba": 10, "bb": 20, "flags": flags, "ops": ops, "part": "corpus"})
     # exhaustive: every sequence over the small alphabet up to the length bound, 2 documents x 3-4 pages
     alpha = small_alphabet(chk.tier)
-    maxlen = 2 if quick else 3
+    maxlen = 3 if quick else 4
     pairs = [("flat3", "nested0")] if quick else [("flat3", "nested0"), ("nested1", "flat4r")]
     for fa, fb in pairs:
         for L in range(1, maxlen + 1):
             for seq in itertools.product(alpha, repeat=L):
                 cases.append({"fa": fa, "fb": fb, "ba": 10, "bb": 20, "flags": "0" if L == maxlen else "1", "ops": list(seq), "part": "exhaustive"})
     # one more level, sampled
-    n_s = 1500 if quick else 60000
+    n_s = 3000 if quick else 60000
     for _ in range(n_s):
         fa, fb = rng.choice([("flat3", "nested0"), ("flat4r", "flat3"), ("nested1", "flat3"), ("shared", "flat3")])
         cases.append({"fa": fa, "fb": fb, "ba": 10, "bb": 20, "flags": rng.choice("012") + "w" * (rng.random() < 0.2),
                       "ops": [rng.choice(alpha) for _ in range(maxlen + 1 + rng.randrange(2))], "part": "exhaustive-sampled"})
     # random long histories over all families
-    n_r = 300 if quick else 20000
+    n_r = 1500 if quick else 20000
     fams = list(FAMILIES)
     ok_fams = [f for f in fams if FAMILIES[f][1]]
     for k in range(n_r):
@@ -776,11 +817,58 @@ def run(chk):
     cases = build_cases(chk)
     impl = run_cases(drv, cases)
     isteps = [parse_steps(l) for l in impl]
-    broken = [i for i, l in enumerate(impl) if l.startswith("?") or l.startswith("!")]
+    # a history on which the implementation dies (stack overflow, memory cap, timeout): find the shortest dying prefix; it is
+    # a violation unless the history had already left the domain of the specification (direct damage to the tree without
+    # updateAllPagesCache: pushInheritedAttributesToPageInternal recurses without loop detection on a stale cache)
+    aborted = [i for i, l in enumerate(impl) if l.startswith("?crashed")]
+    n_aborted_outside = 0
+    for i in aborted:
+        c = cases[i]
+        ops = c["ops"]
+        lo, n = 0, len(ops)          # prefix of length lo survives, prefix of length n dies
+        while n - lo > 1:
+            k = (lo + n) // 2
+            if run_cases(drv, [dict(c, ops=ops[:k])], workers=1)[0].startswith("?crashed"):
+                n = k
+            else:
+                lo = k
+        pre = run_cases(drv, [dict(c, ops=ops[:n - 1])], workers=1)[0]
+        psteps = parse_steps(pre)
+        inside = FAMILIES[c["fa"]][1] and FAMILIES[c["fb"]][1]
+        last_conc = None
+        if inside:
+            pl = spec_plan(c, psteps)
+            inside = pl is not None and not any(p[0] == "stop" for p in pl[1])
+            if inside and n - 1 < len(ops):
+                # the dying operation itself: translate it against the last pre-state
+                one = run_cases(drv, [dict(c, ops=ops[:n - 1], flags=c["flags"])], workers=1)[0]
+                st = parse_steps(one)
+                ts = [tree_info(x) for x in st[-1]["t"].split("/")]
+                last = ops[n - 1]
+                if "@" not in last and all(t is not None for t in ts):
+                    try:
+                        translate(last.split(","), [t["ids"] for t in ts], [kinds(x) for x in st[-2]["k"].split("/")] if len(st) > 1 else [{}, {}])
+                    except Stop:
+                        inside = False
+                    except Exception:
+                        pass
+                else:
+                    inside = False     # symbolic operand: cannot be judged without running it
+        if inside:
+            chk.violation({"kind": "property-fails-on-implementation", "part": "abort", "case": describe(c), "why": "the implementation dies (stack overflow / memory cap / timeout) instead of returning or raising",
+                           "shortest_dying_prefix": ops[:n], "concrete_prefix": concrete_ops(psteps), "output": impl[i][:200]}, signature="C13:abort")
+        else:
+            n_aborted_outside += 1
+    broken = [i for i, l in enumerate(impl) if (l.startswith("?") and not l.startswith("?crashed")) or l.startswith("!")]
     if broken:
         i = broken[0]
         chk.violation({"kind": "broken-tie-infrastructure", "what": "driver failed on a case", "case": describe(cases[i]), "output": impl[i][:500]}, no_input=True)
         return
+    if aborted:
+        keep = [i for i in range(len(cases)) if i not in set(aborted)]
+        cases = [cases[i] for i in keep]
+        impl = [impl[i] for i in keep]
+        isteps = [isteps[i] for i in keep]
     conc = [concrete_ops(s) for s in isteps]
     model = run_cases(runner, cases, concrete=conc)
     msteps = [parse_steps(l) for l in model]
@@ -853,7 +941,9 @@ def run(chk):
     chk.cov["parts"]["steps"] = {"operation:result": dict(sorted(kinds_count.items())),
                                  "spec_steps_checked": stats["spec_steps"], "histories_fully_inside_spec": stats["spec_complete"],
                                  "histories_leaving_spec_domain": stats["spec_stopped"], "unmodelled_cases": stats["unmodelled"],
-                                 "known_finding_hits": stats["known_sig"], "model_differences": len(tie)}
+                                 "known_finding_hits": stats["known_sig"], "model_differences": len(tie),
+                                 "implementation_aborted_after_direct_tree_damage": n_aborted_outside,
+                                 "stream_source_disturbed": stats.get("stream_source_disturbed", 0)}
     if stats["unmodelled"] * 5 > len(cases):
         chk.violation({"kind": "correspondence-broken", "correspondence": "corr:C13:pages-copier-model",
                        "note": "more than 20%% of the histories reach a situation the model does not cover (%d of %d)" % (stats["unmodelled"], len(cases))}, no_input=True)
